@@ -163,6 +163,12 @@ impl Hypergeometric {
             return Err(Error::SampleSizeTooLarge);
         }
 
+        // The reflections below are tracked in `i64` (`offset_x`, `sign_x`) and the
+        // mode uses `n + 2`; populations above `i64::MAX` overflow both.
+        if total_population_size > i64::MAX as u64 {
+            return Err(Error::PopulationTooLarge);
+        }
+
         // set-up constants as function of original parameters
         let n = total_population_size;
         let (mut sign_x, mut offset_x) = (1, 0);
